@@ -1197,6 +1197,52 @@ RETARGET_WITNESS = {"kind": "phistory", "state": {
                "probes": ["controls", "analytic", "coeffs", "qobjevo", "solver"]}]}
 
 
+def own_step_below_tol(w):
+    """class `grid-step-below-tol` (known finding): a step channel whose OWN grid has two consecutive points not more than
+    tol = 1e-10 apart (a slot shorter than the resolution of the merged grid).  The theorems exclude it by hypothesis (SepAll
+    tol: distinct grid points more than tol apart); get_full_tlist merges the second point away and _fill_coeff, whose index
+    advances at most one slot per merged point, then reads every later coefficient of the channel one slot off.  Decided on the
+    INPUT (the grids), not on the code."""
+    spec = w.get("spec") if w.get("kind") in ("evolution", "cubic", "run_state") else (w.get("state") if w.get("kind") == "phistory" else None)
+    if spec is None:
+        return False
+    chans = list(spec["chans"])
+    if w.get("kind") == "phistory":
+        for st in w["steps"]:
+            for e in st["edits"]:
+                if e["op"] == "tlist":
+                    chans.append({"tlist": e["tlist"], "coeff": e["coeff"]})
+                elif e["op"] == "add":
+                    chans.append(e["chan"])
+    for ch in chans:
+        tl = ch.get("tlist")
+        if tl is not None and not is_const(ch) and any(0 < b - a <= 1.05e-10 for a, b in zip(tl[:-1], tl[1:])):
+            return True
+    return False
+
+
+# channel a has a slot of 8e-11 (e.g. the pulse of a rotation by 1e-9 at strength 1) between two ordinary ones
+TINY_STEP_WITNESS = {"kind": "evolution", "spec": {
+    "dims": [2], "seed": 61, "drift": None, "dm": False,
+    "chans": [{"targets": [0], "tlist": [0.0, 0.5, 0.5 + 8e-11, 1.0], "coeff": [1.0, 0.7, -0.4]},
+              {"targets": [0], "tlist": [0.0, 1.0], "coeff": [0.3]}]}}
+
+
+def class_recorded(cls="grid-step-below-tol"):
+    from vlib.core import load_findings
+    return any(f.get("status") == "known" and f.get("class") == cls for f in load_findings("C14"))
+
+
+def make_tiny_step_spec(rng):
+    spec = make_spec(rng, full_prob=0.0, const=False)
+    ch = rng.choice(spec["chans"])
+    k = rng.randrange(1, len(ch["tlist"]))
+    t = ch["tlist"][k - 1] + (ch["tlist"][k] - ch["tlist"][k - 1]) * rng.uniform(0.2, 0.8)
+    ch["tlist"][k:k] = [t, t + rng.choice([8e-11, 3e-11, 1e-12])]
+    ch["coeff"][k - 1:k - 1] = [rng.uniform(-2, 2), rng.uniform(-2, 2)]
+    return spec
+
+
 def history_family():
     """systematic: for every way of touching the stored pulses first (run_analytically, controls, get_qobjevo with and
     without noise, run_state with and without noise, save_coeff, nothing) x every kind of edit, then every cheap probe and
@@ -1358,7 +1404,9 @@ class C14(PropertyCheck):
         "py/props/c14.py (harness, independent step-function / expm reference)",
     ]
     assumptions = ["no noise configured; spline_kind = step_func for the proved part",
-                   "distinct grid points of all channels differ by more than tol (SepAll) for the containment / resampling theorems"]
+                   "distinct grid points of all channels differ by more than tol (SepAll) for the containment / resampling theorems",
+                   "class grid-step-below-tol (known finding, excluded by SepAll): a channel whose own grid has a slot not longer than "
+                   "tol = 1e-10; members are evaluated and reported as KNOWN-FINDING once the class is recorded in known_findings.json"]
     rule = ("exact stream: case = (1-4 channels with independent strictly increasing dyadic grids starting at 0 and ending at different "
             "times, coefficients of length n-1 or n, absent / constant pulses) for get_full_tlist, _fill_coeff, get_full_coeffs and the "
             "slices; tolerance stream: points 2^-40 or 2^-30 away from points of other channels; numeric stream: processors with 1-3 "
@@ -2021,6 +2069,11 @@ class C14(PropertyCheck):
             return self._oracle_exact(ctx, w)
         return False, "unknown witness kind"
 
+    def finding_matches(self, witness, finding):
+        if finding.get("class") == "grid-step-below-tol":
+            return own_step_below_tol(witness)
+        return PropertyCheck.finding_matches(self, witness, finding)
+
     def _oracle_exact(self, ctx, w):
         qutip, Processor, _fill_coeff, Pulse = _impl()
         if w["kind"] == "coeffs":
@@ -2059,7 +2112,12 @@ class C14(PropertyCheck):
             f, d = self.oracle_replay(ctx, w)
             if f:
                 yield w, d
-        for w in history_family()[::3] + [make_history(rng) for _ in range(8)] + constructor_witnesses():
+        tiny = []
+        if class_recorded():
+            # slots shorter than the resolution of the merged grid: excluded by hypothesis (SepAll), a recorded known finding;
+            # members of the class are evaluated and matched by finding_matches (KNOWN-FINDING), not skipped
+            tiny = [TINY_STEP_WITNESS] + [{"kind": "evolution", "spec": make_tiny_step_spec(rng)} for _ in range(3)]
+        for w in tiny + history_family()[::3] + [make_history(rng) for _ in range(8)] + constructor_witnesses():
             f, d = self.oracle_replay(ctx, w)
             if f:
                 yield w, d
